@@ -25,7 +25,7 @@ ASSUMPTIONS = [
 ]
 GATES = {
     "S2_observed": 1, "S3_observed": 1, "S4_observed": 1, "coarse_invalid_pixel": 1, "size_not_divisible": 1, "step_after_multiscale": 1,
-    "multiband": 1, "masks": 1, "fine_pixels_judged": 5000, "validation_before_multiscale": 1, "right_side_ranges_judged": 1, "window_size_1": 1,
+    "multiband": 1, "masks": 1, "fine_pixels_judged": 5000, "validation_before_multiscale": 1, "right_side_ranges_judged": 1, "window_size_1": 1, "machine_that_already_ran_another_multiscale_pipeline": 3,
     "level_images_compared_with_the_exchanged_pair": 20, "levels_with_different_left_right_masks": 2,
 }
 INVALID = 0b1111000011
@@ -129,6 +129,14 @@ def run_case(case, ctx):
     desc = {"pipeline": keys, "S": S, "f": f, "marge": marge, "shape": [rows, cols], "disp": [a, b], "bands": nb, "masks": [lmk, rmk],
             "method": method, "window": w, "exact_interval": exact}
     m = pipes.new_machine()
+    used = case["i"] % 3 == 1
+    if used:
+        # the machine has already checked and run another multiscale pipeline (other zoom, other marge)
+        other = {"matching_cost": {"matching_cost_method": "sad", "window_size": 3, **({"band": "g"} if nb > 1 else {})},
+                 "disparity": {"disparity_method": "wta"},
+                 "multiscale": {"multiscale_method": "fixed_zoom_pyramid", "num_scales": 2, "scale_factor": 5 - f, "marge": (marge + 2) % 4}}
+        pipes.check_and_run(other, gen.deep_copy_ds(left), gen.deep_copy_ds(right), machine=m)
+    ctx.gate("machine_that_already_ran_another_multiscale_pipeline", int(used))
     pipes.check(m, pipe, left, right)
     cfg = pipes.checked_cfg(m, pipe)
     lsnap, rsnap = gen.deep_copy_ds(left), gen.deep_copy_ds(right)
